@@ -12,6 +12,7 @@ import (
 	"math"
 	"os"
 	"path/filepath"
+	"strings"
 	"sync"
 	"testing"
 	"time"
@@ -140,6 +141,14 @@ func signedEnvelope(k keyset, payload index.Payload, sign string) []byte {
 	return []byte(fmt.Sprintf(`{"payload":%s,"signatures":%s}`, served, sraw))
 }
 
+// signedEnvelopeDamaged handles the two syntactic-damage modes on top of a valid root-signed envelope.
+func signedEnvelopeDamaged(k keyset, payload index.Payload, sign string) []byte {
+	if sign == "json-truncated" || sign == "json-garbage" {
+		return damageJSON(signedEnvelope(k, payload, "root"), sign)
+	}
+	return signedEnvelope(k, payload, sign)
+}
+
 // sigAuthorises is the documented acceptance rule of index.Verify (R-1 §a step 2c,
 // verify.go doc comment): a root signature that verifies, or a freshness signature
 // that verifies over content byte-identical to the last root-verified content.
@@ -216,7 +225,7 @@ func stepTimestamp(s idxStep, w time.Duration, now time.Time) (ts time.Time, sta
 func buildStep(k keyset, s idxStep, w time.Duration) (raw []byte, stale bool) {
 	ts, stale := stepTimestamp(s, w, time.Now().UTC())
 	p := index.Payload{SchemaVersion: 1, Index: index.IndexMeta{Version: s.Version, Timestamp: ts}, Connectors: contentVariant(s.Content)}
-	return signedEnvelope(k, p, s.Sign), stale
+	return signedEnvelopeDamaged(k, p, s.Sign), stale
 }
 
 type idxStepFacts struct {
@@ -297,7 +306,7 @@ func runIndexSeq(c idxCase) (facts []idxStepFacts, out []verdict) {
 		}
 		if !accepted {
 			if !isCoded(err) {
-				bad(kIdxUncoded, fmt.Sprintf("uncoded refusal: %v", err))
+				bad(uncodedKey(kIdxUncoded, err), fmt.Sprintf("uncoded refusal: %v", err))
 			}
 			switch expect {
 			case "refuse:rollback":
@@ -493,7 +502,7 @@ func serialFinals(calls [][]concCall) map[int64]bool {
 
 // ---- generator --------------------------------------------------------------------------------
 
-func genIdxStep(t *rapid.T, l string, conc bool) idxStep {
+func genIdxStep(t *rapid.T, st *pbt.Stats, l string, conc bool) idxStep {
 	s := idxStep{}
 	switch pick(t, l+"/verkind", "small", 12, "big", 2, "edge", 1) {
 	case "big":
@@ -509,13 +518,19 @@ func genIdxStep(t *rapid.T, l string, conc bool) idxStep {
 		s.Sign = pick(t, l+"/sign", "root", 12, "root-badsig", 2, "foreign-key", 1, "fresh+root", 1)
 	} else {
 		s.Sign = pick(t, l+"/sign", "root", 16, "fresh", 5, "fresh+root", 2, "foreign+root", 1, "root-badsig", 2, "root-tampered", 2, "foreign-key", 2,
-			"root-keyid-foreign-sig", 1, "root-key-as-freshness", 1, "fresh-key-as-root", 1, "bad-alg", 1, "bad-b64", 1, "none", 1, "dupkey", 1)
+			"root-keyid-foreign-sig", 1, "root-key-as-freshness", 1, "fresh-key-as-root", 1, "bad-alg", 1, "bad-b64", 1, "none", 1, "dupkey", 1,
+			"json-truncated", 1, "json-garbage", 1)
+		if strings.HasPrefix(s.Sign, "json-") && st.IsKnown(kUncodedIndexSyntax) {
+			// known defect (uncoded refusal of syntactically invalid index JSON): exclude exactly this shape
+			st.Exclude(kUncodedIndexSyntax)
+			s.Sign = "none"
+		}
 	}
 	s.Content = rapid.SampledFrom([]int{0, 0, 0, 1, 2}).Draw(t, l+"/content")
 	return s
 }
 
-func genIdxCase(t *rapid.T) idxCase {
+func genIdxCase(t *rapid.T, st *pbt.Stats) idxCase {
 	c := idxCase{Part: "index", Seed: rapid.Int64().Draw(t, "keyseed")}
 	c.WindowHours = rapid.SampledFrom([]int{0, 0, 1, 48, 24 * 365}).Draw(t, "window")
 	if rapid.IntRange(0, 2).Draw(t, "concurrent") == 0 {
@@ -524,7 +539,7 @@ func genIdxCase(t *rapid.T) idxCase {
 			n := rapid.IntRange(1, 3).Draw(t, fmt.Sprintf("w%d/n", w))
 			var steps []idxStep
 			for i := 0; i < n; i++ {
-				steps = append(steps, genIdxStep(t, fmt.Sprintf("w%d/s%d", w, i), true))
+				steps = append(steps, genIdxStep(t, st, fmt.Sprintf("w%d/s%d", w, i), true))
 			}
 			c.Workers = append(c.Workers, steps)
 		}
@@ -534,7 +549,7 @@ func genIdxCase(t *rapid.T) idxCase {
 	}
 	n := rapid.IntRange(1, 10).Draw(t, "nsteps")
 	for i := 0; i < n; i++ {
-		c.Steps = append(c.Steps, genIdxStep(t, fmt.Sprintf("s%d", i), false))
+		c.Steps = append(c.Steps, genIdxStep(t, st, fmt.Sprintf("s%d", i), false))
 	}
 	return c
 }
@@ -545,7 +560,7 @@ func TestC19Index(t *testing.T) {
 	st := pbt.For(prop)
 	defer st.Finish(t)
 	rapid.Check(t, func(t *rapid.T) {
-		c := genIdxCase(t)
+		c := genIdxCase(t, st)
 		pbt.MarkCurrent(prop, c)
 		var vs []verdict
 		var cls []string
